@@ -655,7 +655,94 @@ def c20(chk):
                        "IDs read nothing")
 
 
-REGISTRY = {"C01": c01, "C02": c02, "C03": c03, "C04": c04, "C06": c06, "C11": c11, "C19": c19, "C05": c05, "C07": c07, "C08": c08, "C09": c09, "C13": c13, "C15": c15, "C17": c17, "C18": c18, "C20": c20, "C10": c10, "C16": c16}
+def c14(chk):
+    chk.mc("MC_Comp", "MC_Comp.cfg", workers=4, timeout=600)
+    trace = drive(chk, "compress")
+    need_stat(chk, "compression_cases", 40)
+    # second, unrelated gzip implementation: CPython's zlib decodes the streams the library emitted
+    import gzip, zlib
+    gz_dir = os.path.join(chk.wd, "gz")
+    verdicts = {}
+    for name in sorted(os.listdir(gz_dir)) if os.path.isdir(gz_dir) else []:
+        if name.endswith(".gz"):
+            n = int(name[:-3])
+            z = open(os.path.join(gz_dir, name), "rb").read()
+            want = open(os.path.join(gz_dir, f"{n}.in"), "rb").read()
+            try:
+                # wbits 31: exactly one gzip member, trailing garbage is an error
+                d = zlib.decompressobj(31)
+                got = d.decompress(z) + d.flush()
+                verdicts[n] = "same" if got == want and d.eof and not d.unused_data else "differs"
+            except Exception:
+                verdicts[n] = "error"
+    lines = []
+    for line in open(trace):
+        o = json.loads(line)
+        if o.get("ev") == "Comp":
+            for d in o["streams"]:
+                if "gz_n" in d:
+                    d["py"] = verdicts.get(d["gz_n"], "missing")
+        lines.append(json.dumps(o) + "\n")
+    with open(trace, "w") as f:
+        f.writelines(lines)
+    chk.cov["gzip_streams_decoded_by_cpython_zlib"] = len(verdicts)
+    if len(verdicts) < 10:
+        raise ToolError("second gzip decoder saw fewer than 10 streams")
+    chk.validate("Trace_Stream", trace, "compress", scope=scope_of("C14"), timeout=1200)
+    ev = first_event(trace, lambda o: o["ev"] == "Comp" and o["comp"] == 2 and o["in_len"] > 0 and len(o["streams"]) >= 2)
+    def c_up(o):
+        o["streams"][0]["up"]["tok"] += 1000
+    def c_lib(o):
+        o["streams"][1]["decompress_all"]["res"] = "err"
+    def c_py(o):
+        for d in o["streams"]:
+            if "py" in d:
+                d["py"] = "differs"; return
+    ev0 = first_event(trace, lambda o: o["ev"] == "Comp" and o["comp"] == 0)
+    def c_unknown(o):
+        o["factories"][0]["res"] = "ok"
+    neg_events(chk, "Trace_Stream", [vlib.mutate_json_line(ev, c_up), vlib.mutate_json_line(ev, c_lib), vlib.mutate_json_line(ev, c_py),
+                                    vlib.mutate_json_line(ev0, c_unknown)], "compress", "C14")
+    o = json.loads(ev)
+    chk.sample({"input": o["input"], "comp": o["comp"], "in_len": o["in_len"], "writes": o["writes"][:3], "streams": o["streams"][:1]})
+    chk.assumptions += ["losslessness of DEFLATE / Brotli / Zstandard themselves is the upstream codecs' property (uninterpreted in the spec)",
+                        "the interpretation of Dec is supplied by the upstream decoder crates called directly and, for gzip, by CPython's zlib"]
+    chk.cov["rule"] = ("inputs: empty, 1 byte, 2..6 bytes, compressible, incompressible, data.json, multi-megabyte x {unknown, none, gzip, brotli, "
+                       "zstd}; one-shot helpers and streaming writers (sync/async) under every split of inputs <= 6 (12) bytes and fixed / random "
+                       "chunkings of larger ones; every emitted stream is decoded by the upstream crate, decompress_all, the streaming readers "
+                       "under fragmenting read schedules (sync/async with Pending) and, for gzip, CPython zlib; fixtures .gz/.br/.zst")
+
+
+def c12(chk):
+    mc_store(chk)
+    chk.mc("MC_Codec", "MC_Codec.cfg", workers=8, timeout=3000)
+    stim, n = gen_stimuli(chk, "MC_Foreign", "Gen_Foreign.cfg", "foreign", timeout=600)
+    trace = drive(chk, "twin", ["--stim", stim])
+    need_stat(chk, "twin_cases", 300)
+    chk.validate("Trace_Stream", trace, "twin", scope=scope_of("C12"), parallel=4, timeout=3000)
+    ev = first_event(trace, lambda o: o["ev"] == "Twin" and o["what"] == "archive_write" and o["none_codec"] and o["n_tiles"] >= 2)
+    def c_view(o):
+        o["views"][1]["tiles"][0][1] += 1000
+    def c_bytes(o):
+        o["bytes_async"] += 1000
+    ev2 = first_event(trace, lambda o: o["ev"] == "Twin" and o["what"] == "directory_read" and len(o["views"]) >= 2 and o["views"][0].get("entries"))
+    def c_dir(o):
+        o["views"][1]["entries"][0]["len"][3] = (o["views"][1]["entries"][0]["len"][3] % 65535) + 1
+    ev3 = first_event(trace, lambda o: o["ev"] == "Twin" and o["what"] == "header" and o["views"][0]["res"] == "ok")
+    def c_hdr(o):
+        o["views"][1]["res"] = "err"
+    neg_events(chk, "Trace_Stream", [vlib.mutate_json_line(ev, c_view), vlib.mutate_json_line(ev, c_bytes), vlib.mutate_json_line(ev2, c_dir),
+                                    vlib.mutate_json_line(ev3, c_hdr)], "twin", "C12")
+    o = json.loads(ev3)
+    chk.sample(o)
+    chk.cov["rule"] = ("the same logical archives written through the sync and the async value (0..4300/9000 tiles, 4 codecs) and each read back by both "
+                       "readers (4 views equal; bytes identical for compression none); range-filtered opens; foreign layouts and fixtures through "
+                       "both readers; read_directories twins; directories (random, regular, empty) written and parsed by both APIs on each other's "
+                       "output; write_directories twins; headers (valid, truncated, invalid codes) in both directions. In addition every other "
+                       "check of this suite drives sync and async variants against the same specification action.")
+
+
+REGISTRY = {"C01": c01, "C02": c02, "C03": c03, "C04": c04, "C06": c06, "C11": c11, "C19": c19, "C05": c05, "C07": c07, "C08": c08, "C09": c09, "C12": c12, "C13": c13, "C14": c14, "C15": c15, "C17": c17, "C18": c18, "C20": c20, "C10": c10, "C16": c16}
 
 
 def replay(pid, path):
